@@ -1199,15 +1199,32 @@ def bench_cases(rng, seed, n_cases, start, max_rows):
                "sep": str(rng.choice(["; ", "; ", ";", ";  "])), "order": str(rng.choice(["sorted", "sorted", "shuffled", "dups"])),
                "decimals": int(rng.choice([1, 2, 4, 4, 6])), "flavour": str(rng.choice(["sea", "decades", "ints"])),
                "trailing_newline": bool(rng.integers(0, 4)), "blank": bool(rng.integers(0, 6) == 0),
-               "step_h": int(rng.choice([1, 1, 3, 24]))}
+               "step_h": int(rng.choice([1, 1, 3, 24])), "reread": i % 2 == 1}
 
 
-def run_bench_impl(text):
+def run_bench_impl(text, reread=False):
     from virocon import read_ec_benchmark_dataset
 
     tmp = tempfile.mkdtemp(prefix="c20-", dir=TMP_ROOT)
     try:
         p = os.path.join(tmp, "bench.txt")
+        if reread:
+            # history: the same path was read before - with other content (the file is then rewritten) and the frame
+            # returned by that first read was edited in place by its owner; the evaluated read must return the file's rows
+            ls = [l for l in text.split("\n") if l != ""]
+            earlier = "\n".join(ls[:1] + ls[1:][::-1][: max(1, (len(ls) - 1) // 2)]) + "\n"
+            with open(p, "w", encoding="utf-8") as f:
+                f.write(earlier)
+            try:
+                with warnings.catch_warnings():
+                    warnings.simplefilter("ignore")
+                    df0 = read_ec_benchmark_dataset(p)
+                    df0.iloc[:, :] = -1.0
+                    df0.drop(df0.index[:1], inplace=True)
+                    df0 = read_ec_benchmark_dataset(p)
+                    df0.iloc[:, :] = -2.0
+            except Exception:  # noqa: BLE001
+                pass
         with open(p, "w", encoding="utf-8") as f:
             f.write(text)
         try:
@@ -1281,7 +1298,7 @@ def process_bench(ck, cases):
     lines, recs = [], []
     for case in cases:
         text = materialize_bench(case)
-        impl = run_bench_impl(text)
+        impl = run_bench_impl(text, reread=bool(case.get("reread")))
         bad = oracle_bench(text, impl)
         recs.append((case, text, impl, bad))
         lines.append(["RUN", "readbench", stok(text)])
@@ -1292,6 +1309,8 @@ def process_bench(ck, cases):
         ck.count("bench:rows<=%d" % (10 ** len(str(max(0, n_lines - 2)))))
         if "order" in case:
             ck.count("bench:order=" + case["order"])
+        if case.get("reread"):
+            ck.count("bench:path_read_before_with_other_content")
         for pred, detail in bad:
             ck.fail({"entry": "read_ec_benchmark_dataset", "predicate": pred}, case, detail)
         div = None
